@@ -21,7 +21,7 @@ RULE = ("Hypothesis: general graphs (<=25 statements) x switches x threshold x a
         "Non-trivial: permutation is not the identity and the graph has >=2 candidate kinds for some property or instances with "
         "different cardinalities; distinct by SHA-1 of the case.")
 ASSUMPTIONS = c01.ASSUMPTIONS
-BUDGET = {"quick": {"examples": 12000, "wall": 150}, "thorough": {"examples": 400000, "wall": 5400}}
+BUDGET = {"quick": {"examples": 12000, "wall": 150}, "thorough": {"examples": 200000, "wall": 900}}
 FLOORS = {"nontrivial": 0.3, "no-tie-everywhere": 0.15, "bnode-renamed": 0.1}
 
 
